@@ -42,7 +42,8 @@ def timed_source(rng):
                 # every other kind of event the writer emits: slurs (bend range, bends), bends, RPN/NRPN groups, SysEx
                 parts.append(rng.choice(["l4 c&d e", "Slur(1) c&e g", "BR(12) c", "BR(%d) d&f" % rng.randint(1, 24), "PB(%d) c" % rng.randint(-8000, 8000), "p%d d" % rng.randint(0, 127),
                                          "FineTune(%d) c" % rng.randint(0, 127), "VibratoRate(64) VibratoDepth(64) e", "RPN(0,1,%d) c" % rng.randint(0, 127), "NRPN(1,8,64) c",
-                                         "ResetGM c", "MasterVolume(100) d", "SysEx$=f0,7e,7f,9,1,f7; e", "c&d&e f&f g"]) + " " + rng.choice(["c", "TIME(3:1:0) d", "r e"]))
+                                         "ResetGM c", "MasterVolume(100) d", "SysEx$=f0,7e,7f,9,1,f7; e", "c&d&e f&f g",
+                                         "SysEx$=41,10,42,12,40,00,7F,00,41,F7; c", "SysEx$=41,10,42,12,{40,00,7F,00},F7; d", "SysEx$=f0,41,10,42,12,40,00,7F,00,41; e", "SysEx$=7e,7f,9,1; c"]) + " " + rng.choice(["c", "TIME(3:1:0) d", "r e"]))
             elif r < 0.75:
                 parts.append("l%%%d q100 %s" % (rng.choice([127, 126, 128, 255, 16383, 16384, 2097151, 2097152, rng.randint(1, 300)]), rng.choice(["c d", "e r f", "g"])))
             else:
